@@ -41,6 +41,18 @@ type Ctx struct {
 	nDirectChecks int
 	samples []string
 	notes   map[string]any
+	lastOp  string
+}
+
+// Try runs f (a call into the implementation made by a direct oracle) and reports whether it panicked.
+func Try(f func()) (panicked bool) {
+	defer func() {
+		if r := recover(); r != nil {
+			panicked = true
+		}
+	}()
+	f()
+	return false
 }
 
 func (c *Ctx) Thorough() bool { return c.Tier == "thorough" }
@@ -60,6 +72,10 @@ func (c *Ctx) Op(line string, f func() string) string {
 	c.ops.WriteString(line)
 	c.ops.WriteByte('\n')
 	c.ops.Flush()
+	c.lastOp = line
+	if len(c.lastOp) > 2000 {
+		c.lastOp = c.lastOp[:2000]
+	}
 	out := protect(f)
 	c.impl.WriteString(out)
 	c.impl.WriteByte('\n')
@@ -138,11 +154,21 @@ func main() {
 	c.impl = bufio.NewWriterSize(c.implF, 1<<16)
 	c.direct = bufio.NewWriter(df)
 	installRand(c.Seed)
-	if *replay != "" {
-		replayOps(c, *replay)
-	} else {
-		fn(c)
-	}
+	func() {
+		// a panic in generator/oracle code outside an op (the implementation panicked while a direct
+		// oracle was calling it) is itself a finding: record it with the last journalled op and stop
+		defer func() {
+			if r := recover(); r != nil {
+				c.Direct(false, "implementation panicked inside a direct oracle call: "+fmt.Sprint(r),
+					map[string]any{"last_op": c.lastOp, "stack": string(debug.Stack())})
+			}
+		}()
+		if *replay != "" {
+			replayOps(c, *replay)
+		} else {
+			fn(c)
+		}
+	}()
 	c.ops.Flush()
 	c.impl.Flush()
 	c.direct.Flush()
